@@ -162,7 +162,7 @@ func NewVersionedSignedProposal(proposal *eth2api.VersionedSignedProposal) (Vers
 			return VersionedSignedProposal{}, errors.New("no capella blinded proposal")
 		}
 	case eth2spec.DataVersionDeneb:
-		if proposal.Deneb == nil && !proposal.Blinded {
+		if !proposal.Blinded && (proposal.Deneb == nil || proposal.Deneb.SignedBlock == nil) {
 			return VersionedSignedProposal{}, errors.New("no deneb proposal")
 		}
 
@@ -170,7 +170,7 @@ func NewVersionedSignedProposal(proposal *eth2api.VersionedSignedProposal) (Vers
 			return VersionedSignedProposal{}, errors.New("no deneb blinded proposal")
 		}
 	case eth2spec.DataVersionElectra:
-		if proposal.Electra == nil && !proposal.Blinded {
+		if !proposal.Blinded && (proposal.Electra == nil || proposal.Electra.SignedBlock == nil) {
 			return VersionedSignedProposal{}, errors.New("no electra proposal")
 		}
 
@@ -178,7 +178,7 @@ func NewVersionedSignedProposal(proposal *eth2api.VersionedSignedProposal) (Vers
 			return VersionedSignedProposal{}, errors.New("no electra blinded proposal")
 		}
 	case eth2spec.DataVersionFulu:
-		if proposal.Fulu == nil && !proposal.Blinded {
+		if !proposal.Blinded && (proposal.Fulu == nil || proposal.Fulu.SignedBlock == nil) {
 			return VersionedSignedProposal{}, errors.New("no fulu proposal")
 		}
 
@@ -590,7 +590,13 @@ func (p *VersionedSignedProposal) UnmarshalJSON(input []byte) error {
 
 	resp.Blinded = raw.Blinded
 
-	p.VersionedSignedProposal = resp
+	// A json null block (or signed block) decodes into a nil pointer, reject it like NewVersionedSignedProposal does.
+	wrapped, err := NewVersionedSignedProposal(&resp)
+	if err != nil {
+		return err
+	}
+
+	*p = wrapped
 
 	return nil
 }
